@@ -130,6 +130,12 @@ class SessionModel:
             except BerError as e:
                 bad = f"BER: {e}"
                 break
+            # C03's known finding (UnbindRequest emitted with the constructed bit) is not the subject of the session
+            # monitors: read 62 00 as the UnbindRequest it is meant to be.
+            if n.children and len(n.children) >= 2:
+                opn = n.children[1]
+                if (opn.cls, opn.pc, opn.num) == (1, True, 2) and opn.children == []:
+                    opn.pc, opn.children, opn.content = False, None, b""
             try:
                 msgs.append(rfc4511.decode_node(n))
             except rfc4511.RefDecodeError as e:
